@@ -249,6 +249,31 @@ class Helper(Harness):
                 else: cl += out_matches(oc, yk, na, val, vk, f"group {g}")
         return cl
 
+class HelperThen(Helper):
+    """two helpers on the same column in one aggregate() call: each must still be the textbook statistic of the group
+    (a helper that reorders or overwrites the group slices it is handed changes what the next one sees)"""
+    def __init__(self, helper, kind, then, maxn):
+        Helper.__init__(self, helper, kind, "group", maxn)
+        self.then = then
+        self.name = f"C07.{helper}+{then}.{kind}.group.n{maxn}"
+        self.bounds = dict(self.bounds, call=f"aggregate(y={helper}(x), y2={then}(x))")
+        self.goals = self.goals + [f"aggregate.py:{then}"]
+        self._second = Helper(then, kind, "group", maxn)
+    def build(self, ctx):
+        inp = Helper.build(self, ctx)
+        inp["then"] = {"helper": self.then, "drop_na": None, "ddof": None}
+        return inp
+    def spec(self, inp, out):
+        if isinstance(out, Raised): return Helper.spec(self, inp, out)
+        res = out["out"]
+        if not (isinstance(res, Frame) and res.names == ["g", "y", "y2"]):
+            return [("summary has the columns g, y, y2", T(False))]
+        first = Frame({"g": res.cols["g"], "y": res.cols["y"]})
+        second = Frame({"g": res.cols["g"], "y": res.cols["y2"]})
+        inp2 = dict(inp, helper=self.then, drop_na=None, ddof=None)
+        return ([(f"{self.helper}: {l}", c) for l, c in Helper.spec(self, inp, {"out": first})] +
+                [(f"then {self.then}: {l}", c) for l, c in self._second.spec(inp2, {"out": second})])
+
 def harnesses(tier):
     hs = []
     q = tier == "quick"
@@ -258,6 +283,9 @@ def harnesses(tier):
             kk = {"D": "D"}.get(k, k)
             for form in ("vector", "group"):
                 hs.append(Helper(h, kk, form, 3 if (q or h in ("mode", "nth")) else 3))
+    for a, b in ((("median", "first"), ("mode", "last"), ("count_unique", "first")) if q else
+                 [(h, "first") for h in HELPERS if h not in ("first", "nth")] + [("median", "last"), ("quantile", "last"), ("mode", "last")]):
+        if "f" in KINDS[a]: hs.append(HelperThen(a, "f", b, 2 if q else 3))
     if q:
         hs.append(Helper("sum", "i", "group", 2)); hs.append(Helper("max", "i", "vector", 3)); hs.append(Helper("all", "b", "group", 2))
     return hs
